@@ -110,6 +110,12 @@ func derived(p, svc, prod, region string, rng *rand.Rand) []string {
 	if i := strings.LastIndex(p, "_"); i > 0 {
 		out = append(out, p[:i], p[i+1:])
 	}
+	// ids that differ only in a format verb (they collide if an id ever ends up inside a format string)
+	for _, tw := range [][2]string{{"%s", "%v"}, {"%s", "%d"}, {"%.0s", "%.0v"}, {"%d", "%x"}, {"%%", "%"}} {
+		if strings.Contains(p, tw[0]) {
+			out = append(out, strings.Replace(p, tw[0], tw[1], 1))
+		}
+	}
 	out = append(out, fmt.Sprintf("rnd%d", rng.Int63()))
 	return out
 }
@@ -138,7 +144,7 @@ func TestC06(t *testing.T) {
 	defer static.Close()
 
 	svcs := [][2]string{{"svc", "prod"}, {"s", "s"}, {"my_service", "my_product"}, {"a", "b_c"}}
-	bases := []string{"a", "user_42", "p", "tenant-7", "aB3xK9q", "sks", "tenant-\xff", "100%", "user%40example.com", "üñí", "A_B_C", strings.Repeat("x", 255), "_IK_a", "a_svc_prod", "s", "42", "a_s"}
+	bases := []string{"a", "user_42", "p", "tenant-7", "aB3xK9q", "sks", "tenant-\xff", "100%", "user%40example.com", "acct%sx", "user%.0s-7", "n%d", "pct%%done", "üñí", "A_B_C", strings.Repeat("x", 255), "_IK_a", "a_svc_prod", "s", "42", "a_s"}
 	for len(bases) < nBase {
 		n := 1 + rng.Intn(12)
 		b := make([]byte, n)
